@@ -129,14 +129,20 @@ fn grid(lines: &[String]) -> Vec<Vec<char>> {
 }
 
 fn gen_tables(tier: &str, rng: &mut Rng, slice: &'static str, allow_empty: bool) -> Vec<Case> {
-    let n = if tier == "thorough" { 80000 } else { 4000 };
+    let n = if tier == "thorough" { 80000 } else if tier == "half" { 2000 } else { 4000 };
     let mut cases = Vec::new();
     let mut tokn = 0usize;
     for _ in 0..n {
         let nested = rng.chance(1, 4);
         let (html, layout) = regular_table(rng, &mut tokn, allow_empty, nested, 1);
         let w = if rng.chance(1, 3) { rng.range(1, 25) } else { rng.range(1, 100) };
-        let cfg = Cfg { deco: 1, ..Default::default() };
+        let mut cfg = Cfg { deco: 1, ..Default::default() };
+        if rng.chance(1, 5) {
+            cfg.max_wrap = Some(*rng.pick(&[12usize, 16, 20, 30, 45, 70, 100, 150])); // (tokens are at most 8 columns: they are never cut)
+        }
+        if rng.chance(1, 10) {
+            cfg.pad = true;
+        }
         let mut strs = Vec::new();
         for row in &layout {
             strs.push(row.iter().map(|(s, t)| format!("{}:{}", s, t)).collect::<Vec<_>>().join(","));
@@ -193,6 +199,14 @@ pub fn tiny_table(rng: &mut Rng) -> (String, Vec<String>) {
 }
 fn gen_c06(tier: &str, rng: &mut Rng) -> Vec<Case> {
     let mut cases = gen_tables(tier, rng, "regular_nonempty", false);
+    // tables with empty cells: a cell's text starts at its column's left edge in every row
+    for mut c in gen_tables(if tier == "thorough" { "thorough" } else { "half" }, rng, "regular_with_empty", true) {
+        c.spec.id = cases.len();
+        if let Meta::G { role, .. } = &mut c.meta {
+            *role = "table_empty";
+        }
+        cases.push(c);
+    }
     let n = if tier == "thorough" { 20000 } else { 1500 };
     for _ in 0..n {
         let (html, toks) = tiny_table(rng);
@@ -329,6 +343,41 @@ fn check_c06(cases: &[Case], results: &[Option<RunResult>]) -> Vec<Violation> {
                         if k != 1 {
                             v.push(viol(i, "a column holding text got no space (its cell is not rendered exactly once)", format!("letter {:?} appears {} times in {:?}", ch, k, t), None));
                             break;
+                        }
+                    }
+                }
+            }
+            continue;
+        }
+        if c.meta.role() == "table_empty" && c.meta.nums()[0] == 0 {
+            // single-span cells of one source column start at the same x in every row in which
+            // they have text (side-by-side layout only)
+            if let Some(lines) = results[i].as_ref().and_then(|r| out_lines(&r.outcome)) {
+                if !lines.is_empty() && !stacked(&lines) && lines[0].chars().all(is_rule_glyph) && lines.iter().any(|l| l.contains('│')) {
+                    let layout: Vec<Vec<(usize, String)>> = c.meta.strs().iter().map(|row| row.split(',').map(|x| { let mut p = x.splitn(2, ':'); (p.next().unwrap().parse().unwrap(), p.next().unwrap_or("").to_string()) }).collect()).collect();
+                    let mut col_x: HashMap<usize, (usize, String)> = HashMap::new();
+                    'rows: for row in &layout {
+                        let mut cidx = 0;
+                        for (span, tok) in row {
+                            if *span == 1 && !tok.is_empty() {
+                                for l in &lines {
+                                    if let Some(bp) = l.find(tok.as_str()) {
+                                        let x0 = str_width(&l[..bp]);
+                                        match col_x.get(&cidx) {
+                                            Some((x, t0)) if *x != x0 => {
+                                                v.push(viol(i, "cells of one column do not start at the same position", format!("column {}: {} at {}, {} at {}\n{}", cidx, t0, x, tok, x0, lines.join("\n")), None));
+                                                break 'rows;
+                                            }
+                                            Some(_) => {}
+                                            None => {
+                                                col_x.insert(cidx, (x0, tok.clone()));
+                                            }
+                                        }
+                                        break;
+                                    }
+                                }
+                            }
+                            cidx += span;
                         }
                     }
                 }
@@ -503,6 +552,34 @@ fn gen_c07(tier: &str, rng: &mut Rng) -> Vec<Case> {
         c2.group = gi;
         cases.push(c2);
     }
+    // ordered lists of 2-4 items with content of several lines: every item is its content rendered
+    // alone at width - (widest marker), first line behind its own padded marker, later lines
+    // behind blanks of the common width
+    let n2 = if tier == "thorough" { 20000 } else { 1500 };
+    for gi in 0..n2 {
+        let o = GenOpts { tables: 0, links: false, ids: false, imgs: false, sup: false, strike: false, max_blocks: 2, max_depth: 1, ..Default::default() };
+        let start = *rng.pick(&[8i64, 9, 98, 99, 999, -1, -10, 1, 7]);
+        let nitems = rng.range(2, 4);
+        let inners: Vec<String> = (0..nitems).map(|_| gen_doc(rng, o.clone()).0).collect();
+        let prefixes: Vec<String> = (0..nitems).map(|k| format!("{}. ", start + k as i64)).collect();
+        let maxw = prefixes.iter().map(|p| p.len()).max().unwrap();
+        let outer = format!("<ol start=\"{}\">{}</ol>", start, inners.iter().map(|x| format!("<li>{}</li>", x)).collect::<String>());
+        let mut strs = vec![maxw.to_string()];
+        strs.extend(prefixes.iter().cloned());
+        let deco = *rng.pick(&[0u8, 1, 2]);
+        let cfg = Cfg { deco, footnotes: 2, ..Default::default() };
+        let w = rng.range(8, 60);
+        let id = cases.len();
+        let mut c1 = mk_case(id, 0, cfg.clone(), w, outer.into_bytes(), Some(0), Meta::G { role: "outer_items", strs, nums: vec![] }, "ol_items");
+        c1.group = 5_000_000 + gi;
+        cases.push(c1);
+        for inner in inners {
+            let id = cases.len();
+            let mut c2 = mk_case(id, 0, cfg.clone(), w.saturating_sub(maxw), inner.into_bytes(), Some(0), g("inner"), "ol_items");
+            c2.group = 5_000_000 + gi;
+            cases.push(c2);
+        }
+    }
     // numbering: n short items from `start`
     let nn = if tier == "thorough" { 20000 } else { 1500 };
     for _ in 0..nn {
@@ -536,6 +613,40 @@ fn gen_c07(tier: &str, rng: &mut Rng) -> Vec<Case> {
 fn check_c07(cases: &[Case], results: &[Option<RunResult>]) -> Vec<Violation> {
     let mut v = Vec::new();
     for grp in groups(cases) {
+        if grp.len() >= 3 && cases[grp[0]].meta.role() == "outer_items" {
+            let a = grp[0];
+            let outer = match results[a].as_ref().and_then(|r| out_lines(&r.outcome)) {
+                Some(l) => l,
+                None => continue,
+            };
+            let strs = cases[a].meta.strs();
+            let maxw: usize = strs[0].parse().unwrap();
+            let mut expect: Vec<String> = Vec::new();
+            let mut ok = true;
+            for (k, &b) in grp[1..].iter().enumerate() {
+                match results[b].as_ref().and_then(|r| out_lines(&r.outcome)) {
+                    Some(inner) => {
+                        let pf = &strs[1 + k];
+                        let padded = format!("{}{}", pf, " ".repeat(maxw - pf.len()));
+                        for (j, l) in inner.iter().enumerate() {
+                            expect.push(format!("{}{}", if j == 0 { padded.clone() } else { " ".repeat(maxw) }, l));
+                        }
+                    }
+                    None => {
+                        ok = false;
+                        break;
+                    }
+                }
+            }
+            if !ok {
+                continue;
+            }
+            let norm = |v: &Vec<String>| v.iter().map(|l| l.trim_end().to_string()).collect::<Vec<_>>();
+            if norm(&expect) != norm(&outer) {
+                v.push(viol(a, "ordered-list items are not their content behind a marker padded to the common width", format!("markers {:?}: expected {:?} got {:?}", &strs[1..], expect, outer), None));
+            }
+            continue;
+        }
         if grp.len() == 2 {
             let (a, b) = (grp[0], grp[1]);
             let (ra, rb) = match (&results[a], &results[b]) {
@@ -695,7 +806,7 @@ fn gen_c16(tier: &str, rng: &mut Rng) -> Vec<Case> {
         let o = GenOpts { tables: 0, links: false, ids: false, imgs: false, sup: false, strike: false, max_blocks: 2, max_depth: 1, ..Default::default() };
         let start = *rng.pick(&[8i64, 9, 98, 99, 999, -1, -10, 1]);
         let nitems = rng.range(2, 3);
-        let inners: Vec<String> = (0..nitems).map(|_| gen_doc(rng, o.clone()).0).collect();
+        let inners: Vec<String> = (0..nitems).map(|k| if k > 0 && rng.chance(1, 6) { rng.pick(&["", " ", "<span id=\"e\"></span>", "<!--c-->"]).to_string() } else { gen_doc(rng, o.clone()).0 }).collect();
         let prefixes: Vec<String> = (0..nitems).map(|k| format!("{}{}", start + k as i64, custom[15])).collect();
         let maxw = prefixes.iter().map(|p| str_width(p)).max().unwrap();
         let outer = format!("<ol start=\"{}\">{}</ol>", start, inners.iter().map(|x| format!("<li>{}</li>", x)).collect::<String>());
@@ -820,9 +931,7 @@ fn check_c16(cases: &[Case], results: &[Option<RunResult>]) -> Vec<Violation> {
                 for (j, l) in inner.iter().enumerate() {
                     expect.push(format!("{}{}", if j == 0 { padded.clone() } else { " ".repeat(maxw) }, l));
                 }
-                if inner.is_empty() {
-                    expect.push(padded);
-                }
+                // an item without content prints nothing, but keeps its number
             }
             if !ok {
                 continue;
